@@ -37,8 +37,13 @@ type C07Scenario struct {
 	// Restricted: the server is created without rsyncd.DontRestrict(), as a
 	// program embedding it normally would; the harness has made landlock a
 	// no-op, which is what a kernel without landlock amounts to (BestEffort).
-	Restricted bool      `json:"restricted,omitempty"`
-	Tr         Transport `json:"tr"`
+	Restricted bool `json:"restricted,omitempty"`
+	// Door: the WRITABLE module contains a symlink "door" that points at the
+	// read-only module's directory (as an earlier, legitimate upload of a
+	// symlink would leave it) and the client uploads to rw/door/...: whatever
+	// happens to the upload, the read-only module must not change.
+	Door bool      `json:"door,omitempty"`
+	Tr   Transport `json:"tr"`
 }
 
 // restrictedServers counts landlock layers this worker process has stacked
@@ -100,7 +105,23 @@ func (c07) Generate(seed uint64, tier string, index int) any {
 		sc.Pull, sc.Hostile, sc.ConnArgs = true, true, false
 		args := []string{"--server", "--sender"}
 		args = append(args, flags...)
+		if g.R.Intn(4) == 0 {
+			// sender-side options that would modify the source
+			args = append(args, []string{"--remove-source-files", "--remove-sent-files"}[g.R.Intn(2)])
+		}
 		sc.Flags = append(args, ".", sc.Target)
+	} else if !sc.FSModule && g.R.Intn(8) == 0 {
+		// second step of a two-step attack through the writable module
+		sc.Door, sc.ConnArgs = true, false
+		old := sc.Target
+		sc.Target = []string{"rw", "r"}[g.R.Intn(2)] + []string{"/door/", "/door", "/door/.", "/door/sub/", "/./door/"}[g.R.Intn(5)]
+		if sc.Hostile {
+			for i, a := range sc.Flags {
+				if a == old {
+					sc.Flags[i] = sc.Target
+				}
+			}
+		}
 	}
 	sc.Restricted = g.R.Intn(12) == 0
 	sc.Tr = g.TransportFor(12, 64<<10)
@@ -137,7 +158,16 @@ func (c07) Run(t *testing.T, scenario any, job *Job, res *Result) {
 	if i := strings.IndexByte(modName, '/'); i >= 0 {
 		modName = modName[:i]
 	}
-	if modName != "ro" && modName != "rofs" {
+	if sc.Door {
+		if (modName != "rw" && modName != "r") || !strings.Contains(sc.Target, "door") {
+			res.Invalid = "door scenarios upload to rw/door..."
+			return
+		}
+		if err := os.Symlink(roDir, filepath.Join(rwDir, "door")); err != nil {
+			res.Invalid = err.Error()
+			return
+		}
+	} else if modName != "ro" && modName != "rofs" {
 		res.Invalid = "target must be a read-only module"
 		return
 	}
@@ -260,6 +290,11 @@ func (c07) Run(t *testing.T, scenario any, job *Job, res *Result) {
 			res.Violate("deadlock", "refusal-hang:real-client", out.Pending)
 			return
 		}
+		if sc.Door {
+			res.Probe("door_uploads", 1)
+			res.NonTrivial = true
+			return
+		}
 		if out.RefErr == nil {
 			res.Violate("upload-not-refused", "not-refused:real-client", fmt.Sprintf("flags=%v target=%q: the client's upload into a read-only module returned success\nserver log: %s", sc.Flags, sc.Target, tail(slog.String(), 800)))
 			return
@@ -284,6 +319,11 @@ func (c07) Run(t *testing.T, scenario any, job *Job, res *Result) {
 	}
 	if out.Outcome == kernel.Deadlock {
 		res.Violate("deadlock", "refusal-hang:hostile", out.Pending)
+		return
+	}
+	if sc.Door {
+		res.Probe("door_uploads", 1)
+		res.NonTrivial = true
 		return
 	}
 	refused := strings.HasPrefix(status, "@ERROR") || sawError || refErr != nil
